@@ -38,7 +38,24 @@
 (*   direct:     Kss - Ksx (A^-1 Kxs)            (addmm form)              *)
 (*   root cache: Kss - (Ksx R)(Ksx R)^T  with R R^T = A^-1, R = L^-T for   *)
 (*               A = L L^T,                                                *)
-(*   likelihood(posterior) = posterior + S_test exactly once.              *)
+(*   likelihood(posterior) = posterior + S_test exactly once, S_test the   *)
+(*   documented observation noise of the instance's noise cell (below).    *)
+(*                                                                         *)
+(* Part "noise": WHAT "the observation noise" is.  Cells = Gaussian-family *)
+(* likelihood kind (homoskedastic / fixed per-point / fixed + learned      *)
+(* additional homoskedastic / multitask) x how the noise of the points is  *)
+(* supplied (not at all / call-time noise = t) x number of points handed   *)
+(* to the likelihood (the training size - the stored per-point noise       *)
+(* matches - or another one).  DocNoise gives the documented noise of each *)
+(* cell as a set of terms, each added exactly once; the same table at      *)
+(* (none, train) is the S the posterior is conditioned with.  NoiseOK: the *)
+(* transcription of _shaped_noise_covar / the noise models adds exactly    *)
+(* these terms (variants where the learned part sees the call-time noise   *)
+(* or is skipped when one is given must be rejected by TLC); passing the   *)
+(* stored noise explicitly at training size is S itself; the learned part  *)
+(* is in EVERY cell of its kind.  The rational "lin" instances carry a     *)
+(* noise cell (lk, tr, te) and their exact S / S_test are evaluated from   *)
+(* DocNoise; the seeded replays (L2, L4) build S_test by hand from it.     *)
 (*                                                                         *)
 (* Part "knobs": the NUMERICAL-accuracy settings.  The lattice above fixes *)
 (* WHICH algorithm runs; the knobs fix HOW ACCURATELY an iterative one     *)
@@ -67,9 +84,11 @@
 (* the three blocks Kxx (cached), Kx*, K** are the model's declared prior: *)
 (* the columns its kernel was constructed with and the keywords its        *)
 (* forward passes, conditioned on the model's CURRENT training data        *)
-(* (set_train_data between predictions).  Deliberately broken variants     *)
+(* (set_train_data between predictions) and its CURRENT hyperparameters    *)
+(* (load_state_dict between predictions).  Deliberately broken variants    *)
 (* (restore only under debug; slicing drops the keywords; a targets-only   *)
-(* set_train_data keeps the strategy) must be rejected by TLC.  The replay *)
+(* set_train_data / a load_state_dict keeps the strategy) must be rejected *)
+(* by TLC.  The replay                                                     *)
 (* walks each history through real models of the class (active_dims on the *)
 (* top-level kernel / only on parts of a sum or product / nowhere; a       *)
 (* keyword-consuming kernel and mean; kernel of the model or of the noise  *)
@@ -81,7 +100,8 @@ EXTENDS LinAlg, TLC
 CONSTANTS Part, Instances, MaxOff,
           HistLen, HistKw, HistSites,        \* part "history": length bound and the slice of the model lattice of this run
           RestoreAlways, SliceKeepsParams,   \* TRUE = the current code; FALSE = deliberately broken variants
-          SetDataClears                      \* which set_train_data steps drop the prediction strategy (current code: both)
+          SetDataClears,                     \* which set_train_data / load_state_dict steps drop the prediction strategy (current code: all)
+          SecondNoise                        \* part "noise": how the learned additional noise treats a call-time noise ("filtered" = the current code)
 
 VARIABLES c, out     \* out: the exact expectation handed to the replay ("lin" instances)
 vars == <<c, out>>
@@ -184,13 +204,65 @@ KnobsOK ==
     /\ (c.mcs = "default" /\ c.nclass # "gt800" => MeanPrec(c) = <<"exact">> /\ CovPrec(c) = <<"exact">>)
     /\ out = Promise(c)
 
+\* ============================== observation noise ===============================================
+\* kind    GaussianLikelihood / FixedNoiseGaussianLikelihood(noise) / FixedNoiseGaussianLikelihood(noise, learn_additional_noise = True) /
+\*         MultitaskGaussianLikelihood (task noise covariance Sigma_T = task part + global sigma2 I_T)
+\* supply  likelihood(dist) / likelihood(dist, noise = t) with t one value per point of dist
+\* size    the number of points of dist: "train" = as many as the stored per-point noise (= training points), "test" = any other number
+LikKinds == {"homoskedastic", "fixed", "fixed-learned", "multitask"}
+NoiseCells == [kind : LikKinds, supply : {"none", "call"}, size : {"train", "test"}]
+NoiseTerms == {"sigma2*I", "diag(t)", "diag(stored)", "second*I", "I(x)Sigma_T"}
+\* the documented observation noise of a cell: the sum of these terms, each exactly once
+\*   homoskedastic: sigma2 I; a call-time noise "is used directly" (HomoskedasticNoise.forward)
+\*   fixed:         "noise = t adds a specified amount of noise"; without it the stored noise when the sizes match, otherwise nothing (warned no-op)
+\*   learned:       "additionally ... learn added diagonal noise, similar to GaussianLikelihood": second_noise I on top, whatever the per-point part is
+\*   multitask:     I_n (x) Sigma_T; a call-time noise is no argument of this likelihood and does not enter
+DocNoise(s) ==
+  IF s.kind = "homoskedastic" THEN (IF s.supply = "call" THEN {"diag(t)"} ELSE {"sigma2*I"})
+  ELSE IF s.kind = "multitask" THEN {"I(x)Sigma_T"}
+  ELSE (IF s.supply = "call" THEN {"diag(t)"} ELSE IF s.size = "train" THEN {"diag(stored)"} ELSE {})
+       \cup (IF s.kind = "fixed-learned" THEN {"second*I"} ELSE {})
+\* the S a model is conditioned with: ExactGP passes the training prior through the likelihood without a call-time noise
+TrainNoise(kind) == DocNoise([kind |-> kind, supply |-> "none", size |-> "train"])
+
+\* code-shaped: _GaussianLikelihoodBase.marginal adds _shaped_noise_covar = noise_covar(...) [+ second_noise_covar(...)], as bags of terms
+BagOf(S) == [x \in NoiseTerms |-> IF x \in S THEN 1 ELSE 0]
+BagSum(a, b) == [x \in NoiseTerms |-> a[x] + b[x]]
+HomoskedasticFwd(term, seesnoise) == IF seesnoise THEN BagOf({"diag(t)"}) ELSE BagOf({term})       \* "if a noise kwarg is provided, this noise is used directly"
+FixedFwd(s) == IF s.supply = "call" THEN BagOf({"diag(t)"}) ELSE IF s.size = "train" THEN BagOf({"diag(stored)"}) ELSE BagOf({})
+CodeNoise(s) ==
+  IF s.kind = "homoskedastic" THEN HomoskedasticFwd("sigma2*I", s.supply = "call")
+  ELSE IF s.kind = "multitask" THEN BagOf({"I(x)Sigma_T"})                                           \* marginal() drops **kwargs
+  ELSE IF s.kind = "fixed" THEN FixedFwd(s)
+  ELSE IF SecondNoise = "early-return" /\ s.supply = "call" THEN FixedFwd(s)
+  ELSE BagSum(FixedFwd(s), HomoskedasticFwd("second*I", SecondNoise = "sees-noise" /\ s.supply = "call"))
+
+NoiseOK ==
+  Part = "noise" =>
+    /\ CodeNoise(c) = BagOf(DocNoise(c))                                   \* exactly the documented terms, each exactly once
+    /\ ("second*I" \in DocNoise(c) <=> c.kind = "fixed-learned")           \* the learned part belongs to every cell of its kind and to no other
+    \* handing the stored noise over explicitly (t = stored, training size) is the S of the conditioning
+    /\ (c.kind \in {"fixed", "fixed-learned"} =>
+          {IF x = "diag(t)" THEN "diag(stored)" ELSE x : x \in DocNoise([c EXCEPT !.supply = "call", !.size = "train"])} = TrainNoise(c.kind))
+    /\ (c.supply = "none" /\ c.size = "train" => DocNoise(c) = TrainNoise(c.kind))
+    /\ TrainNoise(c.kind) # {}                                             \* every kind has a proper (positive definite) conditioning noise
+    /\ out = DocNoise(c)
+
 \* ============================== algebra =========================================================
 \* instance kinds:
-\*  "lin"  : X (n x 2 integer), Xs (ns x 2 integer), mean constant mc, noise s2, targets y: K = [X;Xs][X;Xs]^T (linear kernel)
+\*  "lin"  : X (n x 2 integer), Xs (ns x 2 integer), mean constant mc, targets y: K = [X;Xs][X;Xs]^T (linear kernel); noise cell: likelihood kind lk
+\*           (not multitask), s2 = sigma2 resp. the learned second noise, tr = stored per-point noise (n integers), te = call-time noise (ns integers)
+\*           or <<>> (none supplied); the size class follows from ns = n
 \*  "root" : L (n x n integer lower triangular, positive diagonal): A = L L^T; Ksx (ns x n integer), Kss = Ksx A^-1 Kxs + I
 NTrain(i) == IF i.kind = "lin" THEN Len(i.X) ELSE Len(i.L)
 Joint(i) == LET Z == FromInt(i.X \o i.Xs) IN MMul(Z, Tr(Z))                         \* prior covariance of [train; test]
-Noise(i) == MScale(R(i.s2), Ident(NTrain(i)))
+IntDiag(v) == Mk(Len(v), Len(v), LAMBDA j, k : IF j = k THEN R(v[j]) ELSE RZero)
+TermMat(x, i, m) == IF x = "diag(t)" THEN IntDiag(i.te) ELSE IF x = "diag(stored)" THEN IntDiag(i.tr) ELSE MScale(R(i.s2), Ident(m))     \* sigma2*I, second*I
+NoiseMat(S, i, m) == LET P(x) == IF x \in S THEN TermMat(x, i, m) ELSE MScale(RZero, Ident(m))
+                     IN MAdd(MAdd(P("sigma2*I"), P("second*I")), MAdd(P("diag(t)"), P("diag(stored)")))
+NoiseCellOf(i) == [kind |-> i.lk, supply |-> IF i.te = <<>> THEN "none" ELSE "call", size |-> IF Len(i.Xs) = Len(i.X) THEN "train" ELSE "test"]
+Noise(i) == NoiseMat(TrainNoise(i.lk), i, NTrain(i))                                   \* S: the documented noise of the training data
+TestNoise(i) == NoiseMat(DocNoise(NoiseCellOf(i)), i, Len(i.Xs))                       \* S*: the documented noise of the cell
 
 A(i)   == IF i.kind = "lin" THEN MAdd(Block(Joint(i), 1, NTrain(i), 1, NTrain(i)), Noise(i))
           ELSE LET L == FromInt(i.L) IN MMul(L, Tr(L))
@@ -214,7 +286,7 @@ PathCovDirect(i) == MSub(Kss(i), MMul(Ksx(i), MMul(Inv(A(i)), Tr(Ksx(i)))))     
 RootInv(i)     == Tr(Inv(FromInt(i.L)))
 PathCovRoot(i) == LET Q == MMul(Ksx(i), RootInv(i)) IN MSub(Kss(i), MMul(Q, Tr(Q)))
 \* passing the posterior through the likelihood at the test points
-Marginal(i)    == MAdd(PostCov(i), MScale(R(i.s2), Ident(Rows(Ksx(i)))))
+Marginal(i)    == MAdd(PostCov(i), IF i.kind = "lin" THEN TestNoise(i) ELSE MScale(R(i.s2), Ident(Rows(Ksx(i)))))
 
 AlgebraOK ==
   Part = "algebra" =>
@@ -224,6 +296,9 @@ AlgebraOK ==
     /\ (c.kind = "root" => MMul(RootInv(c), Tr(RootInv(c))) = Inv(A(c)) /\ PathCovRoot(c) = PostCov(c))
     /\ IsPSD(PostCov(c))
     /\ IsPSD(MSub(Kss(c), PostCov(c)))                     \* conditioning never adds uncertainty
+    \* the noise cell of a "lin" instance is a cell of part "noise", its kind is conditioned with a proper S, and the likelihood adds S* >= 0
+    /\ (c.kind = "lin" => NoiseCellOf(c) \in NoiseCells /\ IsPD(Noise(c)) /\ IsPSD(TestNoise(c)) /\ MSub(Marginal(c), PostCov(c)) = TestNoise(c)
+                          /\ (c.te # <<>> => Len(c.te) = Len(c.Xs)) /\ Len(c.tr) = Len(c.X))
 
 \* ============================== history =========================================================
 \* model lattice of this part:
@@ -257,7 +332,10 @@ Tracked(s, dbg, tag, dv) ==
                !.kad = IF s.p = "evaluated" THEN s.kad ELSE AfterEval(s.kad, dbg),
                !.obs = Append(s.obs, [step |-> tag, xx |-> xx, xs |-> blk, ss |-> blk, data |-> dv, cur |-> s.ver])]
 
-DataSteps == {"set-targets", "set-data"}     \* model.set_train_data(targets = y'), model.set_train_data(inputs = X', targets = y')
+\* model.set_train_data(targets = y'), model.set_train_data(inputs = X', targets = y'), model.load_state_dict(state with OTHER hyperparameter
+\* values) while the model stays in eval mode: "ver" counts the versions of everything the posterior is conditioned on (training data and the
+\* hyperparameters K, m, S are evaluated with)
+DataSteps == {"set-targets", "set-data", "load-state"}
 Quiet == {"refresh"} \cup DataSteps            \* steps without an observation
 
 HStep(s, a) ==
@@ -266,7 +344,8 @@ HStep(s, a) ==
   ELSE IF a \in DataSteps                 \* new training data of the MODEL: its prediction strategy is dropped, whichever part of the data changed
   THEN [s EXCEPT !.ver = @ + 1, !.hist = Append(@, a),
                  !.outer = IF a \in SetDataClears THEN FALSE ELSE @,
-                 !.cache = IF a \in SetDataClears /\ s.m.site = "covar" THEN <<>> ELSE @]      \* the noise model keeps its own data and strategy
+                 \* the noise model keeps its own data and strategy; a state dict is loaded into every submodule, the noise model included
+                 !.cache = IF a \in SetDataClears /\ (s.m.site = "covar" \/ a = "load-state") THEN <<>> ELSE @]
   ELSE LET n  == Len(s.hist) + 1
            dv == IF s.outer THEN s.cver ELSE s.ver
            s1 == IF s.m.site = "covar" THEN Tracked(s, a # "debug-off", n, dv)
@@ -295,10 +374,11 @@ HistoryOK == Part = "history" => OnePriorAt(c) /\ OnePriorAt(HStep(c, "none")) /
 KernelRestored == Part = "history" => c.kad = "declared"
 
 \* for the replay of "lin" instances: exact posterior mean / covariance / marginal covariance
-Expected(i) == [mean |-> PostMean(i), cov |-> PostCov(i), marg |-> Marginal(i)]
+Expected(i) == [mean |-> PostMean(i), cov |-> PostCov(i), marg |-> Marginal(i), terms |-> DocNoise(NoiseCellOf(i))]
 
-Init == /\ IF Part = "lattice" THEN c \in Cells ELSE IF Part = "knobs" THEN c \in KnobCells ELSE IF Part = "history" THEN HInit ELSE c \in Instances
-        /\ out = IF Part = "knobs" THEN Promise(c) ELSE IF Part = "algebra" /\ c.kind = "lin" THEN Expected(c) ELSE IF Part = "lattice" THEN PathOf(c) ELSE <<>>
+Init == /\ IF Part = "lattice" THEN c \in Cells ELSE IF Part = "knobs" THEN c \in KnobCells ELSE IF Part = "history" THEN HInit
+           ELSE IF Part = "noise" THEN c \in NoiseCells ELSE c \in Instances
+        /\ out = IF Part = "knobs" THEN Promise(c) ELSE IF Part = "noise" THEN DocNoise(c) ELSE IF Part = "algebra" /\ c.kind = "lin" THEN Expected(c) ELSE IF Part = "lattice" THEN PathOf(c) ELSE <<>>
 Next == IF Part = "history" THEN HNext ELSE UNCHANGED vars
 Spec == Init /\ [][Next]_vars
 =============================================================================
